@@ -187,6 +187,26 @@ def check_subclass_chains(idx, run, rule):
             ast.unparse(s.targets[0].slice) == "'force'" and
             isinstance(s.value, ast.Constant) and s.value.value is True
             for s in ast.walk(func))
+        # a validate() that sets options itself works on its own copy: the
+        # caller's dictionary is typically reused for the next loop
+        stores = [st for st in ast.walk(func) if isinstance(st, ast.Assign)
+                  and isinstance(st.targets[0], ast.Subscript) and
+                  ast.unparse(st.targets[0].value) == "options"]
+        if stores:
+            copies = [st for st in ast.walk(func) if isinstance(st, ast.Assign)
+                      and ast.unparse(st.targets[0]) == "options" and
+                      ast.unparse(st.value) in ("options.copy()",
+                                                "dict(options)",
+                                                "copy.copy(options)")]
+            okc = bool(copies) and min(c.lineno for c in copies) < \
+                min(st.lineno for st in stores)
+            run.check(rule, okc, f"{cls.name}.validate",
+                      "options are copied before validate() changes them",
+                      f"{cls.name}.validate stores into the caller's options "
+                      f"dictionary ({ast.unparse(stores[0])[:50]}): a script "
+                      f"that reuses the dictionary passes 'force': True to "
+                      f"the next transformation, which then skips its "
+                      f"dependence analysis", loc(mod, stores[0]))
         if forces:
             setters.add(cls.name)
             run.check(rule, cls.name in FORCE_SETTERS, f"{cls.name}.validate",
